@@ -1243,7 +1243,7 @@ impl<'a> TokenBasedLuaGenerator<'a> {
             self.write_generic_type_pack(generic_type_pack);
 
             if (i + type_variables_len) < last_index {
-                if let Some(comma) = tokens.commas.get(i) {
+                if let Some(comma) = tokens.commas.get(i + type_variables_len) {
                     self.write_token(comma);
                 } else {
                     self.write_symbol(",");
